@@ -39,7 +39,7 @@ PROPS = {
     "C14": dict(quick_checks=3000, thorough_checks=20000, race_thorough=True, enum=True),
     "C15": dict(quick_checks=2500, thorough_checks=15000, race_thorough=True),
     "C16": dict(level="fault_enumeration", quick_checks=1500, thorough_checks=10000, enum=True),
-    "C17": dict(quick_checks=2500, thorough_checks=12000),
+    "C17": dict(quick_checks=2500, thorough_checks=12000, enum=True),
     "C18": dict(quick_checks=3000, thorough_checks=20000, enum=True),
     "C19": dict(quick_checks=300, quick_shards=4, thorough_checks=3000, thorough_shards=8, thorough_rounds=10, race=True, hang_s=60, enum=True),
     "C20": dict(quick_checks=2500, thorough_checks=15000),
